@@ -373,11 +373,22 @@ Print Assumptions C11_get_ast2_eq_lexable.
 (* PARTIAL towards "get_ast2 s = get_ast s for all strings s": what is still
    missing are exactly the strings with a LEXICAL error ([tokens_of s] contains
    TBad: a sign without digits, '#' not followed by digits or '(', a literal
-   glued to '+', '-', '.', a stray '.', a character outside the alphabet).  There
+   glued to '+', '-', '.', a stray '.'), over the MCNP alphabet (with the private
+   characters '_' '^' '*' the equality is false, next theorem).  There
    get_ast s is an error (C11_get_ast_sound); that get_ast2 s is the same error
    needs the rewriting steps on arbitrary malformed text and is covered by the
    bounded theorems (length <= 6) and the thorough tier's computation only.
    Proved besides: on a writing, get_ast2 only depends on the normal form. *)
+(* without the alphabet assumption the equality is FALSE: the code-shaped model
+   (like the code) accepts the private syntax that normalize() produces, the
+   lexer model rejects it — the characters '_' '^' '*' are outside the input
+   alphabet of the property (ASSUMPTIONS) *)
+Theorem C11_get_ast2_private_syntax_refuted :
+  get_ast2 "_(1)"%string = Ok (ASurf (-1) None) /\ get_ast "_(1)"%string = Err EParse /\
+  get_ast2 "1*2"%string = Ok (AAnd (ASurf 1 None) (ASurf 2 None)) /\ get_ast "1*2"%string = Err EParse.
+Proof. repeat split; vm_compute; reflexivity. Qed.
+Print Assumptions C11_get_ast2_private_syntax_refuted.
+
 Theorem C11_get_ast2_layout_partial : forall (ws ws' : written) (trail trail' : nat),
   wf_written ws = true -> wf_written ws' = true -> ws <> [] ->
   map (fun p => watom (snd p)) ws = map (fun p => watom (snd p)) ws' ->
